@@ -76,26 +76,53 @@ func unmap(a Val) Val {
 	return Val{T: a.T, L: []string{a.L[0], a.L[1], ite(is4in6(a), "4", a.L[2])}}
 }
 
-// addrAsSlice allocates the byte slice returned by Addr.AsSlice.
+// addrAsSlice allocates the byte slice returned by Addr.AsSlice. The bytes are fresh constants tied to hi/lo by
+// their defining sums (friendlier to the solvers than div/mod extraction).
 func (ex *Exec) addrAsSlice(st *State, a Val) Val {
 	key, srt := ex.byteKey()
 	r := ex.alloc(st)
 	h := ex.heapGet(st, key, srt)
-	zero := "((as const (Array Int Int)) 0)"
-	row4 := zero
-	for i := 0; i < 4; i++ {
-		row4 = sto(row4, num(int64(i)), byteOf(a.L[1], uint(8*(3-i))))
-	}
-	row16 := zero
-	for i := 0; i < 8; i++ {
-		row16 = sto(row16, num(int64(i)), byteOf(a.L[0], uint(8*(7-i))))
-	}
-	for i := 8; i < 16; i++ {
-		row16 = sto(row16, num(int64(i)), byteOf(a.L[1], uint(8*(15-i))))
-	}
 	is4 := eq(a.L[2], "4")
 	inval := eq(a.L[2], "0")
-	ex.heapSet(st, key, srt, sto(h, r, ite(is4, row4, row16)))
+	if ex.pure > 0 {
+		zero := "((as const (Array Int Int)) 0)"
+		row4 := zero
+		for i := 0; i < 4; i++ {
+			row4 = sto(row4, num(int64(i)), byteOf(a.L[1], uint(8*(3-i))))
+		}
+		row16 := zero
+		for i := 0; i < 8; i++ {
+			row16 = sto(row16, num(int64(i)), byteOf(a.L[0], uint(8*(7-i))))
+		}
+		for i := 8; i < 16; i++ {
+			row16 = sto(row16, num(int64(i)), byteOf(a.L[1], uint(8*(15-i))))
+		}
+		ex.heapSet(st, key, srt, sto(h, r, ite(is4, row4, row16)))
+	} else {
+		var bs []string
+		var rng []string
+		for i := 0; i < 16; i++ {
+			b := ex.freshConst("ab", sInt)
+			bs = append(bs, b)
+			rng = append(rng, app("<=", "0", b), app("<=", b, "255"))
+		}
+		ex.assume(and(rng...))
+		sum := func(xs []string) string {
+			t := xs[0]
+			for _, x := range xs[1:] {
+				t = app("+", app("*", "256", t), x)
+			}
+			return t
+		}
+		// v4: the four bytes are the low 32 bits of lo; v6: hi and lo
+		ex.assume(imp(is4, eq(app("mod", a.L[1], "4294967296"), sum(bs[0:4]))))
+		ex.assume(imp(not(is4), and(eq(a.L[0], sum(bs[0:8])), eq(a.L[1], sum(bs[8:16])))))
+		row := "((as const (Array Int Int)) 0)"
+		for i := 0; i < 16; i++ {
+			row = sto(row, num(int64(i)), bs[i])
+		}
+		ex.heapSet(st, key, srt, sto(h, r, row))
+	}
 	n := ite(inval, "0", ite(is4, "4", "16"))
 	return sliceVal(types.NewSlice(types.Typ[types.Byte]), ite(inval, "0", r), "0", n, n)
 }
